@@ -1,8 +1,10 @@
 """Callee summaries for crates outside the analysed one (`core`, `tinyvec`, ...): integer return
 intervals and, for partial (panic-capable) functions, the proof goal under which they do not
 panic.  The table of partial functions is also the enumeration used by the PF engine."""
+import re
+
 from . import core, flow
-from .ia import INT_BITS, SLICE_LEN_MAX, clip, join, meet, ty_range, type_len, type_cap
+from .ia import AV_MAX_LEN, INT_BITS, SLICE_LEN_MAX, bits_of, clip, join, meet, ty_range, type_len, type_cap
 
 # partial callees: stripped path -> short class name.  Anything listed here is a panic site.
 PARTIAL = {
@@ -105,6 +107,8 @@ def resolved_decl(c):
 def partial_class(c):
     """Class of a partial callee or None if total (per this table)."""
     decl, res = resolved_decl(c)
+    if oversized_arrayvec_conversion(c):
+        return "capacity"
     for p in (res, decl):
         if p is None:
             continue
@@ -132,12 +136,29 @@ def int_ty_of_arg(c, idx=0):
     return None
 
 
-def arrayvec_cap_from_callee(c):
-    """Capacity N when the callee is a method of `ArrayVec<[T; N]>`."""
+def arrayvec_cap_from_callee(c, real=False):
+    """Usable capacity min(N, 65535) when the callee is a method of `ArrayVec<[T; N]>` (real=True: N itself)."""
     for a in (c.get("resolved") or c).get("args", []) or c.get("args", []):
         if isinstance(a, dict) and a.get("k") == "array" and a.get("len") is not None:
-            return a["len"]
+            return a["len"] if real else min(a["len"], AV_MAX_LEN)
     return None
+
+
+_AV_ANY = re.compile(r"tinyvec::arrayvec::ArrayVec<\[.*?; (\d+)\]>")
+
+
+def oversized_arrayvec_conversion(c):
+    """`ArrayVec<[T; N]>::from([T; N])` / `::try_from(&[T])` with N > 65535: the conversion panics for
+    lengths in 65536..=N (tinyvec keeps the length in a u16)."""
+    decl, res = resolved_decl(c)
+    name = res or decl
+    last = name.rsplit("::", 1)[-1]
+    if last not in ("from", "try_from", "from_iter", "collect"):
+        return False
+    txt = " ".join(str(x) for x in (c.get("s", ""), (c.get("resolved") or {}).get("s", ""), (c.get("resolved") or {}).get("impl_self", ""), c.get("self_ty", "")))
+    if "tinyvec::arrayvec::ArrayVec" not in txt:
+        return False
+    return any(int(n) > AV_MAX_LEN for n in _AV_ANY.findall(txt))
 
 
 def extern_call(an, f, st, t, c, argiv):
@@ -347,7 +368,8 @@ def _len_model(an, f, st, t, c, argiv):
         return {}, None, []
     if last == "from" and "ArrayVec<" in dty and "From<" in c.get("s", "") and "ArrayVec" in name:
         n = type_cap(dty)
-        return ({("#len",): (n, n)} if n is not None else {}), None, []
+        goal = (False, "capacity", "ArrayVec::from of an array longer than 65535 elements always panics (u16 length)") if oversized_arrayvec_conversion(c) else None
+        return ({("#len",): (n, n)} if n is not None else {}), goal, []
     if last == "try_from" and "TryFrom" in name and "ArrayVec" in name:
         # ArrayVec::<[T;N]>::try_from(&[T]) : Ok iff len <= N
         inner = None
@@ -355,10 +377,15 @@ def _len_model(an, f, st, t, c, argiv):
         import re
         m = re.search(r"ArrayVec<\[.*?; (\d+)\]>", dty)
         n = int(m.group(1)) if m else None
+        goal = None
+        if n is not None and n > AV_MAX_LEN:
+            # lengths in 65536..=N pass the capacity test and then panic in set_len (u16 length field)
+            proved = L0 is not None and (L0[1] <= AV_MAX_LEN or L0[0] > n)
+            goal = (proved, "capacity", "slice len=%s; ArrayVec<[_; %d]> holds at most %d elements (u16 length): lengths %d..=%d panic" % (L0, n, AV_MAX_LEN, AV_MAX_LEN + 1, n))
         if L0 is not None and n is not None:
             ok = (1, 1) if L0[1] <= n else ((0, 0) if L0[0] > n else (0, 1))
-            return {("#ok",): ok, ("@Ok", "0", "#len"): (L0[0], min(L0[1], n))}, None, []
-        return {}, None, []
+            return {("#ok",): ok, ("@Ok", "0", "#len"): (L0[0], min(L0[1], n, AV_MAX_LEN))}, goal, []
+        return {}, goal, []
     if last == "try_into" and "TryInto" in name:
         # &[T] -> [T; K] / &[T; K]: Ok iff len == K
         import re
@@ -631,9 +658,23 @@ def _extern_call(an, f, st, t, c, argiv):
                 m = an.arith({"saturating_add": "Add", "saturating_sub": "Sub", "saturating_mul": "Mul"}.get(last, "Add"), a0, a1, rng)
             if m is not None:
                 ret = {(): (max(rng[0], min(m[0], rng[1])), max(rng[0], min(m[1], rng[1])))}
+                if an._recording and (m[0] < rng[0] or m[1] > rng[1]):
+                    an.note_lossy(f, last, t["dest"]["ty"], m, rng)
         ret = ret or ({(): rng} if rng else {})
     elif name.startswith("core::num::") and last in ("wrapping_add", "wrapping_sub", "wrapping_mul", "wrapping_shl", "wrapping_shr", "wrapping_neg", "wrapping_pow"):
         ret = {(): rng} if rng else {}
+        op = {"wrapping_add": "Add", "wrapping_sub": "Sub", "wrapping_mul": "Mul", "wrapping_shl": "Shl"}.get(last)
+        m = None
+        if op and a0 is not None and a1 is not None and rng is not None:
+            bits = bits_of(rng[1])
+            if op == "Shl" and a1[1] >= bits:
+                m = None  # the shift amount is reduced modulo the width: nothing sound to say but the type range
+            else:
+                m = an.arith(op, a0, a1, rng)
+            if m is not None and rng[0] <= m[0] and m[1] <= rng[1]:
+                ret = {(): m}
+        if an._recording and rng is not None and (m is None or m[0] < rng[0] or m[1] > rng[1]):
+            an.note_lossy(f, last, t["dest"]["ty"], m if m is not None else (rng[0] - 1, rng[1] + 1), rng)
     elif name.startswith("core::num::") and last in ("min", "max"):
         if a0 is not None and a1 is not None:
             ret = {(): (min(a0[0], a1[0]), min(a0[1], a1[1])) if last == "min" else (max(a0[0], a1[0]), max(a0[1], a1[1]))}
